@@ -273,6 +273,7 @@ package server
 //@   flag assumepreserves
 //@   loop 0 invariant lk: held(u.sessionsM) && u != nil && u.sessions != nil && (forall k uint32 :: mapHas(u.sessions, k) ==> u.sessions[k] != nil)
 //@   loop 0 invariant closable: forall k uint32 :: mapHas(u.sessions, k) ==> ghostcall("multiplex.closable", u.sessions[k])
+//@   loop 0 complete everySessionClosed
 // TerminateActiveUser: usage is queued, every session is closed, the record is removed - each step
 // under its own lock, none nested.
 //@ func (*userPanel).TerminateActiveUser
@@ -379,6 +380,10 @@ package server
 //@   loop 0 invariant lk: holdsOnly(panel.usageUpdateQueueM) && panel != nil && panel.usageUpdateQueue != nil
 //@   loop 0 invariant pairs: forall k [16]byte :: mapHas(panel.usageUpdateQueue, k) ==> panel.usageUpdateQueue[k] != nil && panel.usageUpdateQueue[k].up != nil && panel.usageUpdateQueue[k].down != nil
 //@   loop 1 invariant lk: holdsNone() && panel != nil
+//@   # C16: every verdict of the manager is looked at - the response loop is never left early, so a user whose
+//@   # credit ran out is cut off even when an earlier verdict named a user that is already gone
+//@   loop 1 complete everyVerdictHandled
+//@   atcall TerminateActiveUser requires aRegisteredUser: arg0.(*ActiveUser) != nil
 
 // C17, ownership of sessions. dispatchConnection looks the user up (GetUser, under activeUsersM) and then
 // attaches a session to it (GetSession, under sessionsM): two separately locked steps. The lemma asks
